@@ -9,6 +9,7 @@ Contracts (GROUND over the 20 advertised configurations, all bases, all group el
   aligned                              bases and circuits come from the same file line (independent reader of the file)
   circuit_lookup.MUBInfo               post: header fields / per-line parse = independent reader
   mub_circuits.get_mub_info(n, c)      post: "num circuits" = 2^n+1, max count / max depth / average = oracle values of the returned circuits
+  results_are_fresh_copies             bases / circuits handed out (also the first ones after a cold start) share no mutable object with the cache
   not_worse[i]                         two-qubit count of MUB circuit i <= count of get_readout_circuit(Stabilizer(basis i), c)
 """
 from __future__ import annotations
@@ -30,6 +31,24 @@ def config_job(cfg):
     def rec(fam, ok, key, what, extra=None):
         out.append((fam, bool(ok), f"{fam}:{n}:{conn}:{key}", what, dict(rp0, **(extra or {}))))
 
+    # ownership: the very first results after a cold start (and later ones) share no mutable object with the lookup cache, and survive caller mutation
+    import htstabilizer.circuit_lookup as clk
+    from .c13 import reach_mutable, mutate, canon
+    for order in ((get_mubs, get_mub_circuits), (get_mub_circuits, get_mubs)):
+        clk.mub_file_cache.pop(f"mub{n}-{conn}.txt", None)
+        firsts = [f(n, conn) for f in order]
+        snap = [canon(x) for x in firsts]
+        cache_ids = set(reach_mutable(clk.mub_file_cache))
+        shared = [f.__name__ for f, x in zip(order, firsts) if set(reach_mutable(x)) & cache_ids]
+        for x in firsts:
+            mutate(x)
+        try:
+            again = [canon(f(n, conn)) for f in order]
+        except Exception as e:
+            again = f"later call raised {type(e).__name__}: {e}"
+        rec("C09.results_are_fresh_copies", not shared and again == snap, order[0].__name__,
+            f"{n}-{conn}: first results after a cold start alias the lookup cache ({shared}) or a caller's mutation of them changes later results")
+    clk.mub_file_cache.pop(f"mub{n}-{conn}.txt", None)
     mubs = get_mubs(n, conn)
     circs = get_mub_circuits(n, conn)
     info = get_mub_info(n, conn)
